@@ -36,7 +36,7 @@ func VerifReadFrame(fType byte, rd *bufio.Reader, isTCP bool) (kind byte, dataTy
 
 // VerifWriteCtrlFrame runs writeCtrlFrame the way the TNC's writer goroutine calls it.
 func VerifWriteCtrlFrame(isTCP bool, w io.Writer, str string) error {
-	return writeCtrlFrame(isTCP, w, str)
+	return writeCtrlFrame(isTCP, w, "%s", str)
 }
 
 // VerifIsChecksumMismatch reports whether err is the CRC mismatch error of the frame reader.
